@@ -32,6 +32,10 @@ class Session:
         pid, fd = pty.fork()
         if pid == 0:
             try:
+                # a disposition of "ignore" would be inherited through exec by the shell and by every program it starts
+                for sig in (signal.SIGINT, signal.SIGQUIT, signal.SIGTSTP, signal.SIGTTIN, signal.SIGTTOU, signal.SIGPIPE, signal.SIGCHLD, signal.SIGCONT):
+                    signal.signal(sig, signal.SIG_DFL)
+                signal.pthread_sigmask(signal.SIG_SETMASK, set())
                 os.chdir(cwd or case_dir)
                 os.execve(common.CICADA, [common.CICADA], e)
             finally:
